@@ -37,6 +37,7 @@ var Properties = map[string]func(*Ctx){
 	"C15": C15,
 	"C13": C13,
 	"C14": C14,
+	"C17": C17,
 	"C18": C18,
 	"C20": C20,
 }
@@ -258,4 +259,8 @@ func C20(c *Ctx) {
 	R20Serialise(c)
 	R20TokenOwnership(c)
 	R20ItemPairing(c)
+}
+
+func C17(c *Ctx) {
+	R21Progress(c)
 }
